@@ -7,14 +7,8 @@ func VerifDecodeKey(dst, src []byte) (int, error) { return decodeKey(dst, src) }
 
 // VerifConsts reports the constants the Lean model is parameterised by.
 func VerifConsts() map[string]string {
-	alphabet := make([]byte, 64)
-	for c := 0; c < 256; c++ {
-		if decodeMap[c] != 0xFF && int(decodeMap[c]) < 64 {
-			alphabet[decodeMap[c]] = byte(c)
-		}
-	}
 	return map[string]string{
-		"base64Alphabet": "LB:" + byteList(alphabet),
+		"base64DecodeMap": "LB:" + byteList(decodeMap[:]),
 		"xteaRounds":     "N:" + itoa(uint64(xteaRounds)),
 		"xteaDelta":      "U32:" + itoa(uint64(xteaDelta)),
 		"xteaSum":        "U32:" + itoa(uint64(xteaSum)),
